@@ -6,7 +6,7 @@ Import ListNotations.
 Open Scope N_scope.
 
 (* names: 1 = A, 2 = B (CHAINED); 3 = run r1; 4 = N *)
-Definition g_chain : gstate := mkG [(1, CChained); (2, CChained)] [] [] [] [] [] [] [] [(0, 0)] 1.
+Definition g_chain : gstate := mkG [(1, CChained); (2, CChained)] [] [] [] [] [] [] [] [(0, 0)] 1 [].
 Definition cyclic (g : gstate) : bool := memN 2 (children g 1) && memN 1 (children g 2).
 Definition p_chain := [client_of [SetChain 1 [2]]; client_of [SetChain 2 [1]]].
 
@@ -101,6 +101,20 @@ Definition p_regrm := [client_of [RegRun 4]; client_of [RmColl 4]].
 Lemma regrun_halfway_refuted_p :
   exists sched, map outs (snd (run_all true [] g_empty p_regrm sched)) = [[Err ESqlIntegrity]; [OkU]].
 Proof. exists [0; 0; 1; 0]%nat. vm_compute. auto. Qed.
+
+(* ... and while it is between them, another client is told "already registered" (False) and its put into the run is
+   refused (FOREIGN KEY to the missing run row, reported as a conflict) -- no serial order refuses that put that way *)
+Definition p_reg_put := [client_of [RegRun 4]; client_of [RegRun 4; Put 4 1 52]].
+Lemma regrun_halfway_put_refuted_p :
+  (exists sched, let '(g, cs) := run_all true [] g_empty p_reg_put sched in
+                 map outs cs = [[OkB true]; [OkB false; Err EConflict]] /\ dsets g = []) /\
+  (forall order, In order [[0; 0; 0]; [1; 0; 0]; [1; 1; 0]]%nat ->
+     ~ In (Err EConflict) (concat (map outs (snd (run_serial true [] g_empty p_reg_put order))))).
+Proof.
+  split.
+  - exists [0; 0; 1; 1]%nat. vm_compute. auto.
+  - intros order [H|[H|[H|[]]]]; subst; vm_compute; intuition discriminate.
+Qed.
 
 (* ---- removeRuns reads the run's datasets before its block: a put in between makes the block fail (state intact) *)
 Definition p_rr_put := [client_of [RemoveRun 3]; client_of [Put 3 1 9]].
